@@ -10,6 +10,7 @@ from typing import Any
 from vp import core
 
 from props import c04_ir as I
+from props import c05_affine as F
 from props import c05_agg as A
 from props import c05_gen as G
 from props import c05_perturb as P
@@ -54,7 +55,21 @@ META = {
         "attributes of function-like operations on none / all / a strict subset of the positions, declarations "
         "with 0/1/2 results), over a fixed catalogue of generic-form texts (vector.transfer_read/write: scalar vs "
         "vector element type × in_bounds × permutation_map; func.func definitions with partly decorated arguments "
-        "and results), and over pass outputs.  A corpus chunk that parsed and verified at the pinned state "
+        "and results), and over pass outputs.  Hand-written forms that print EXPRESSIONS (affine.load / store / "
+        "vector_load / vector_store spell their access map as infix expressions over SSA names with minimal "
+        "parentheses; affine.apply): generated instances over a grammar of affine expressions (every operator — add, "
+        "sub, mul, mod, floordiv, ceildiv, negation, negative and constant-valued factors — as left and as right "
+        "operand of every operator: exhaustive to depth 2, random to depth 3; smart-constructed and raw trees; "
+        "dimension, symbol and mixed spaces; shared operands) are judged by the ACCESS FUNCTION: operand values ↦ "
+        "(memref, stored value, result types, other properties, values of the map results) of the original and of "
+        "the operation parsed from the custom text agree on a fixed sample of integer points (independent "
+        "evaluator; the legitimate renaming dims→symbols / merging of repeated names / dropping of unused operands "
+        "by the custom parser does not change it), and again for the custom round trip of the re-parsed operation "
+        "(second generation).  The same semantic oracle runs on every corpus / pass / variant module that contains "
+        "such an operation.  The printed index expressions are also read by the Lean model of the affine parser "
+        "(XdslModel/Affine.lean, C26: parse then evalPy): the model builds the expression the real "
+        "Parser.parse_affine_map_of_ssa_ids built, and its value is the value of the original map.  "
+        "A corpus chunk that parsed and verified at the pinned state "
         "(harness/corpus/C05/verified_chunks.json) and no longer does is a failing input."
     ),
     "technique": "Lean 4 proof on the directive-interpreter model + differential correspondence on generated IRDL ops + direct custom-vs-generic round-trip oracle over generated ops, the .mlir corpus and pass outputs",
@@ -69,7 +84,12 @@ META = {
         "is the one registered format), AttrSized{Region,Successor}Segments; the symbol-table side of the generic "
         "parser is C04's (values and blocks are compared by their printed names).  MODELLED "
         "BY NOTHING: the hand-written print/parse overrides in xdsl/dialects/*.py and custom directives — they are "
-        "covered only by the corpus/pass oracle; the lexical payload syntax of types and attributes (one opaque "
+        "covered only by the corpus/pass oracle (the minimal-parentheses expression printer of the affine access "
+        "operations is NOT modelled in Lean either: its printed text is tied to the Lean model of the affine PARSER "
+        "and evaluator by correspondence, the access-function oracle is sampled — 20 points per module — not "
+        "proved; maps are compared by value, never by shape, for these operations: non-positive divisors and "
+        "semi-affine products are outside the statement and not generated; text idempotence print→parse→print is "
+        "counted, not demanded: `a + (b + c)` is printed `a + b + c`); the lexical payload syntax of types and attributes (one opaque "
         "token in the model; C06); type inference through constraint variables; whitespace directives; nested "
         "groups.  Formats that the xDSL format compiler accepts but wfD rejects (ambiguous look-ahead: e.g. an "
         "optional attribute followed by `[`, a unit attribute outside a group) are not judged (optional attribute "
@@ -97,12 +117,16 @@ META = {
         "failing inputs of every repaired defect × all small instances.  corpus/pass: evaluated = verified chunks; "
         "non-trivial = chunk contains ≥1 operation printed with a custom syntax, distinct by (file, chunk[, pass]).  "
         "perturb/funclike: evaluated = variants that verify; all are non-trivial, distinct by (op class, file, chunk, "
-        "op index, edit).  text-catalogue: every entry, distinct by name."
+        "op index, edit).  text-catalogue: every entry, distinct by name.  affine-expr: evaluated = generated "
+        "operations that verify, have a readable generic form and went through both generations (+1 per index "
+        "expression parsed by the Lean model); non-trivial = some map result has an operator, distinct by "
+        "(op kind, raw/smart, result expressions, space, operand pattern)."
     ),
     "trusted_base": [
         "hand-written Lean model XdslModel/DeclFormat.lean (fixed FormatProgram semantics at token level), tied by correspondence",
         "hand-written Lean model XdslModel/DeclGeneric.lean (generic form of one instance on the C04 skeleton, accessors), tied by correspondence; harness/props/c05_agg.py (spec encoder, token rendering)",
         "canonical IR serialiser harness/props/c04_ir.py; round-trip/reduction harness/props/c05_rt.py; generator+encoder harness/props/c05_gen.py",
+        "harness/props/c05_affine.py: expression generator, independent evaluator of affine expression trees, value numbering of parallel modules; Lean model XdslModel/Affine.lean (parser + evaluator, proved in C26) as reference reader of the printed index expressions",
     ],
     "assumptions": [
         "lexing the printed text gives back the printed tokens (types/attributes/regions are single opaque tokens of their class)",
@@ -845,8 +869,9 @@ def check_module(ctx: core.Ctx, module, case: dict[str, Any], family: str) -> bo
         return True
     for o in module.walk():
         ctx.count(f"{family}.ops.{R.format_kind(o)}")
+    sem_ok = F.check_bindings(ctx, module, rt, case, family)
     if rt.ok:
-        return True
+        return sem_ok
     for f in R.reduce_failure(module, rt):
         c = dict(case)
         c["op"] = f.op_name
@@ -928,6 +953,10 @@ def run(ctx: core.Ctx) -> None:
     from props import c04
 
     timed("text_catalogue", P.run_text_catalogue, ctx, check_module)
+    if ctx.tier == "quick":
+        timed("affine_expr", F.run_family, ctx, 900, 8, reserve=110)
+    else:
+        timed("affine_expr", F.run_family, ctx, 12000, 8, reserve=900)
     ix = P.Index()
     if ctx.tier == "quick":
         timed("acceptance", run_acceptance, ctx, 250, reserve=100)
@@ -1017,6 +1046,8 @@ def replay(ctx: core.Ctx, body: dict) -> int:
         bad = verdict != "other" and ((verdict == "ok") != (o[-1] == "true"))
         print("correspondence", "BROKEN" if bad else "holds", "on this case")
         return 1 if bad else 0
+    elif fam == "affine-expr":
+        return F.replay_case(ctx, case)
     elif fam == "lost-chunk":
         text = (core.REPO / case["file"]).read_text().split("// -----")[case["chunk"]]
         m, why = P.parse_verify(text)
@@ -1052,6 +1083,10 @@ def replay(ctx: core.Ctx, body: dict) -> int:
         print("custom text:\n" + rt.custom[:3000])
         print("round trip (custom vs generic):", "ok" if rt.ok else f"FAILS at {rt.stage}: {rt.detail}")
         bad = not rt.ok
+        if rt.parsed is not None:
+            for f in F.sem_check(m, rt.parsed):
+                print(f.signature + ": " + f.detail)
+                bad = True
     else:
         print("replay has no executable case:", body.get("kind"), body.get("theorem_or_correspondence"))
         print((body.get("description") or "")[:3000])
